@@ -2,35 +2,8 @@
 From Coq.Strings Require Import Byte String.
 From Coq Require Import List Arith NArith Bool Lia.
 Import ListNotations.
-From V Require Import lib.Bytes spec.HtmlTok spec.HtmlRefs model.Escape model.StyleAttr model.DocFrag spec.DocExpect proofs.EscapeProof proofs.StyleAttrProof.
+From V Require Import lib.Bytes spec.HtmlTok spec.HtmlRefs model.Escape model.StyleAttr model.DocFrag spec.DocExpect proofs.EscapeProof proofs.StyleAttrProof proofs.TokRunProof proofs.TokRawProof proofs.ScriptPartsProof.
 Open Scope nat_scope.
-
-(* ---------- run ---------- *)
-Lemma run_app st a b : run st (a ++ b) = let '(st1, e1) := run st a in let '(st2, e2) := run st1 b in (st2, e1 ++ e2).
-Proof.
-  revert st; induction a as [|x a IH]; intros st; cbn [app run].
-  - destruct (run st b); reflexivity.
-  - destruct (step st x) as [s1 e1]. rewrite IH. destruct (run s1 a) as [s2 e2]. destruct (run s2 b) as [s3 e3].
-    rewrite app_assoc. reflexivity.
-Qed.
-Lemma run_silent st b st' r : step st b = (st', []) -> run st (b :: r) = run st' r.
-Proof. intros H. cbn [run]. rewrite H. destruct (run st' r); reflexivity. Qed.
-Lemma run_emit st b st' e r : step st b = (st', e) -> run st (b :: r) = let '(s2, e2) := run st' r in (s2, e ++ e2).
-Proof. intros H. cbn [run]. rewrite H. reflexivity. Qed.
-
-(* ---------- text holes ---------- *)
-Lemma step_text_plain x nm b : plain_text x = true -> Byte.eqb b x3c = false -> step (Text x nm) b = (Text x nm, [TChar b]).
-Proof. destruct x; try discriminate; intros _ H; cbn [step step_text]; rewrite ?H; reflexivity. Qed.
-
-Lemma run_text_nolt x nm v rest : plain_text x = true -> no_lt v = true ->
-  run (Text x nm) (v ++ rest) = let '(st, e) := run (Text x nm) rest in (st, chars v ++ e).
-Proof.
-  intros P. induction v as [|b r IH]; intros H.
-  - cbn. destruct (run (Text x nm) rest); reflexivity.
-  - unfold no_lt in H. cbn [forallb] in H. apply andb_prop in H as [Hb Hr]. apply negb_true_iff in Hb.
-    cbn [app]. rewrite (run_emit _ _ _ _ _ (step_text_plain x nm b P Hb)). rewrite (IH Hr).
-    destruct (run (Text x nm) rest); reflexivity.
-Qed.
 
 Lemma inert_no_lt s : inert s = true -> no_lt s = true.
 Proof.
@@ -272,10 +245,26 @@ Proof.
 Qed.
 
 (* ---------- element attributes ---------- *)
-Lemma attr_t_step st t a rest : settle st = Some t -> wf_attr a = true ->
+Definition Forall_fix {A : Type} (P : A -> Prop) (f : forall x, P x) : forall l, Forall P l :=
+  fix go l := match l with [] => Forall_nil P | x :: r => Forall_cons x (f x) (go r) end.
+
+Definition attr_goal (a : attr) : Prop := forall st t rest, settle st = Some t -> wf_attr a = true ->
   exists st', run st (render_attr_t a ++ rest) = run st' rest /\ settle st' = Some (pushall t (expected_attr_t a)).
+Lemma attrs_from l : Forall attr_goal l -> forall st t rest, settle st = Some t -> forallb wf_attr l = true ->
+  exists st', run st (flat_map render_attr_t l ++ rest) = run st' rest /\ settle st' = Some (pushall t (flat_map expected_attr_t l)).
 Proof.
-  intros S H. destruct a as [k v|k|k s|k b|m|vs]; cbn [render_attr_t expected_attr_t wf_attr] in *.
+  induction 1 as [|x a Hx _ IH]; intros st t rest S H.
+  - exists st. split; [reflexivity|]. cbn [flat_map]. rewrite pushall_nil. exact S.
+  - cbn [forallb] in H. apply andb_prop in H as [Wx Wa]. cbn [flat_map]. rewrite <- app_assoc.
+    destruct (Hx st t (flat_map render_attr_t a ++ rest) S Wx) as [st1 [R1 S1]].
+    destruct (IH st1 _ rest S1 Wa) as [st2 [R2 S2]]. exists st2. split.
+    + rewrite R1. exact R2.
+    + rewrite S2. rewrite pushall_app. reflexivity.
+Qed.
+Fixpoint attr_t_step (a : attr) : attr_goal a.
+Proof.
+  unfold attr_goal. intros st t rest S H.
+  destruct a as [k v|k|k s|k b|m|vs|c th el]; cbn [render_attr_t expected_attr_t wf_attr] in *.
   - eexists. split; [apply kv_step; eassumption|]. cbn [settle]. rewrite <- pushall_push, pushall_nil. reflexivity.
   - eexists. split; [apply bool_step; eassumption|]. cbn [settle]. rewrite <- pushall_push, pushall_nil. reflexivity.
   - eexists. split; [apply kv_step; eassumption|]. cbn [settle]. rewrite <- pushall_push, pushall_nil. reflexivity.
@@ -286,18 +275,14 @@ Proof.
   - eexists. split.
     + rewrite <- !app_assoc. apply (kv_raw_step st t (bs "style") (style_attr vs) rest S eq_refl (style_attr_inert vs)).
     + cbn [settle]. rewrite <- pushall_push, pushall_nil. reflexivity.
+  - (* if / else inside the tag: the list taken *)
+    destruct c.
+    + exact (attrs_from th (Forall_fix attr_goal attr_t_step th) st t rest S H).
+    + exact (attrs_from el (Forall_fix attr_goal attr_t_step el) st t rest S H).
 Qed.
 Lemma attrs_t_step a : forall st t rest, settle st = Some t -> forallb wf_attr a = true ->
   exists st', run st (flat_map render_attr_t a ++ rest) = run st' rest /\ settle st' = Some (pushall t (flat_map expected_attr_t a)).
-Proof.
-  induction a as [|x a IH]; intros st t rest S H.
-  - exists st. split; [reflexivity|]. cbn [flat_map]. rewrite pushall_nil. exact S.
-  - cbn [forallb] in H. apply andb_prop in H as [Hx Ha]. cbn [flat_map]. rewrite <- app_assoc.
-    destruct (attr_t_step st t x (flat_map render_attr_t a ++ rest) S Hx) as [st1 [R1 S1]].
-    destruct (IH st1 _ rest S1 Ha) as [st2 [R2 S2]]. exists st2. split.
-    + rewrite R1. exact R2.
-    + rewrite S2. rewrite pushall_app. reflexivity.
-Qed.
+Proof. apply attrs_from. apply (Forall_fix attr_goal attr_t_step). Qed.
 
 (* a whole start tag *)
 Lemma open_tag n a rest : elem_name n = true -> forallb wf_attr a = true ->
@@ -349,22 +334,93 @@ Proof.
   cbn [step app]. change (is_alpha x3e) with false. cbv iota. rewrite bytes_eqb_refl. reflexivity.
 Qed.
 
+(* ---------- induction over trees (nested lists, lists of lists) ---------- *)
+Section TreeInd.
+Variable P : tree -> Prop.
+Hypothesis HText : forall v, P (TText v).
+Hypothesis HStr : forall s, P (TStr s).
+Hypothesis HElem : forall n a ch, Forall P ch -> P (TElem n a ch).
+Hypothesis HVoid : forall n a, P (TVoid n a).
+Hypothesis HCmt : forall d, P (TCmt d).
+Hypothesis HDoc : forall d, P (TDoc d).
+Hypothesis HRaw : forall n a v, P (TRaw n a v).
+Hypothesis HScript : forall a ps, P (TScript a ps).
+Hypothesis HIf : forall c th el, Forall P th -> Forall P el -> P (TIf c th el).
+Hypothesis HFor : forall its, Forall (Forall P) its -> P (TFor its).
+Hypothesis HSwitch : forall i cs, Forall (Forall P) cs -> P (TSwitch i cs).
+Hypothesis HCall : forall b, Forall P b -> P (TCall b).
+Hypothesis HChildren : forall b, Forall P b -> P (TChildren b).
+Fixpoint tree_ind' (t : tree) : P t :=
+  match t with
+  | TText v => HText v
+  | TStr s => HStr s
+  | TElem n a ch => HElem n a ch (Forall_fix P tree_ind' ch)
+  | TVoid n a => HVoid n a
+  | TCmt d => HCmt d
+  | TDoc d => HDoc d
+  | TRaw n a v => HRaw n a v
+  | TScript a ps => HScript a ps
+  | TIf c th el => HIf c th el (Forall_fix P tree_ind' th) (Forall_fix P tree_ind' el)
+  | TFor its => HFor its (Forall_fix (Forall P) (Forall_fix P tree_ind') its)
+  | TSwitch i cs => HSwitch i cs (Forall_fix (Forall P) (Forall_fix P tree_ind') cs)
+  | TCall b => HCall b (Forall_fix P tree_ind' b)
+  | TChildren b => HChildren b (Forall_fix P tree_ind' b)
+  end.
+End TreeInd.
+
+(* sequences of nodes rendered one after the other from a state the tokenizer comes back to *)
+Definition seq_goal (S : tstate) (t : tree) : Prop :=
+  forall rest, run S (render t ++ rest) = let '(st, e) := run S rest in (st, expected t ++ e).
+Section Seq.
+Variable W : tree -> bool.
+Variable S : tstate.
+Definition G (t : tree) : Prop := W t = true -> seq_goal S t.
+Lemma seq_list l : Forall G l -> forallb W l = true ->
+  forall rest, run S (flat_map render l ++ rest) = let '(st, e) := run S rest in (st, flat_map expected l ++ e).
+Proof.
+  induction 1 as [|c l Hc _ IH]; intros H rest; [cbn; destruct (run S rest); reflexivity|].
+  cbn [forallb] in H. apply andb_prop in H as [Wc Wl]. cbn [flat_map]. rewrite <- app_assoc.
+  rewrite (Hc Wc). rewrite (IH Wl). destruct (run S rest). rewrite app_assoc. reflexivity.
+Qed.
+Lemma seq_list2 ll : Forall (Forall G) ll -> forallb (forallb W) ll = true ->
+  forall rest, run S (flat_map (flat_map render) ll ++ rest) = let '(st, e) := run S rest in (st, flat_map (flat_map expected) ll ++ e).
+Proof.
+  induction 1 as [|l ll Hl _ IH]; intros H rest; [cbn; destruct (run S rest); reflexivity|].
+  cbn [forallb] in H. apply andb_prop in H as [Wl Wll]. cbn [flat_map]. rewrite <- app_assoc.
+  rewrite (seq_list l Hl Wl). rewrite (IH Wll). destruct (run S rest). rewrite app_assoc. reflexivity.
+Qed.
+Lemma seq_pick cs : Forall (Forall G) cs -> forall i, pick (forallb W) true i cs = true ->
+  forall rest, run S (pick (flat_map render) [] i cs ++ rest) = let '(st, e) := run S rest in (st, pick (flat_map expected) [] i cs ++ e).
+Proof.
+  induction 1 as [|c cs Hc _ IH]; intros i H rest; [cbn; destruct (run S rest); reflexivity|].
+  destruct i as [|i]; cbn [pick] in *.
+  - apply (seq_list c Hc H).
+  - apply (IH i H).
+Qed.
+End Seq.
+
+(* content of RCDATA / RAWTEXT / script parents *)
+Lemma flat_tree x nm : plain_text x = true -> forall t, flat t = true -> seq_goal (Text x nm) t.
+Proof.
+  intros P. induction t using tree_ind'; intros F; try discriminate F; cbn [flat] in F; unfold seq_goal; intros rest; cbn [render expected].
+  - apply run_text_nolt; assumption.
+  - apply tok_text_hole; assumption.
+  - destruct c; [apply (seq_list flat (Text x nm) th H F)|apply (seq_list flat (Text x nm) el H0 F)].
+  - apply (seq_list2 flat (Text x nm) its H F).
+  - apply (seq_pick flat (Text x nm) cs H i F).
+  - apply (seq_list flat (Text x nm) b H F).
+  - apply (seq_list flat (Text x nm) b H F).
+Qed.
 Lemma flat_children x nm ch rest : plain_text x = true -> forallb flat ch = true ->
   run (Text x nm) (flat_map render ch ++ rest) = let '(st, e) := run (Text x nm) rest in (st, flat_map expected ch ++ e).
 Proof.
-  intros P. induction ch as [|c ch IH]; intros H.
-  - cbn. destruct (run (Text x nm) rest); reflexivity.
-  - cbn [forallb] in H. apply andb_prop in H as [Hc Hch]. cbn [flat_map]. rewrite <- app_assoc.
-    destruct c as [v|s|?|?]; try discriminate Hc; cbn [render expected flat] in *.
-    + rewrite (run_text_nolt x nm v _ P Hc). rewrite (IH Hch). destruct (run (Text x nm) rest). rewrite app_assoc. reflexivity.
-    + rewrite (tok_text_hole x nm s _ P). rewrite (IH Hch). destruct (run (Text x nm) rest). rewrite app_assoc. reflexivity.
+  intros P F. apply (seq_list flat (Text x nm)); [|exact F]. apply Forall_forall. intros t _. exact (flat_tree x nm P t).
 Qed.
 
-(* ---------- the document theorem for the fragment ---------- *)
-Fixpoint c01_tree (t : tree) : wf t = true ->
-  forall rest, run Data (render t ++ rest) = let '(st, e) := run Data rest in (st, expected t ++ e).
+(* ---------- the document theorem ---------- *)
+Lemma c01_tree (t : tree) : wf t = true -> seq_goal Data t.
 Proof.
-  destruct t as [v|s|n a ch|n a]; intros W rest.
+  induction t using tree_ind'; intros W; unfold seq_goal; intros rest.
   - cbn [render expected]. apply run_text_nolt; [reflexivity|exact W].
   - cbn [render expected]. apply tok_text_hole. reflexivity.
   - cbn [wf] in W. apply andb_prop in W as [W Wc]. apply andb_prop in W as [Wn Wa].
@@ -374,12 +430,7 @@ Proof.
     rewrite (open_tag n a _ Wn Wa). unfold after_start. pose proof (text_kind_plain (map lower n)) as PK.
     destruct (text_kind (map lower n)) eqn:K; try discriminate Wc; try discriminate PK; clear PK.
     + (* normal element: children are tokenised in the data state *)
-      assert (Kids : forall l, forallb wf l = true -> forall rest2,
-                run Data (flat_map render l ++ rest2) = let '(st, e) := run Data rest2 in (st, flat_map expected l ++ e)).
-      { induction l as [|c l IHl]; intros Wl rest2; [cbn; destruct (run Data rest2); reflexivity|].
-        cbn [forallb] in Wl. apply andb_prop in Wl as [Wc0 Wl]. cbn [flat_map]. rewrite <- app_assoc.
-        rewrite (c01_tree c Wc0). rewrite (IHl Wl). destruct (run Data rest2). rewrite app_assoc. reflexivity. }
-      rewrite (Kids ch Wc). rewrite (close_name_data n rest Wn). destruct (run Data rest). cbn [app]. rewrite <- app_assoc. reflexivity.
+      rewrite (seq_list wf Data ch H Wc). rewrite (close_name_data n rest Wn). destruct (run Data rest). cbn [app]. rewrite <- app_assoc. reflexivity.
     + rewrite (flat_children XRcdata _ ch _ eq_refl Wc).
       assert (Al : forallb is_alpha n = true) by (rewrite <- forallb_alpha_lower; apply text_kind_alpha; rewrite K; discriminate).
       rewrite (close_name_raw XRcdata n rest eq_refl) by (try exact Al; destruct n; discriminate).
@@ -397,6 +448,37 @@ Proof.
     change ([x3e] ++ rest) with (x3e :: rest).
     rewrite (open_tag n a _ Wn Wa). unfold after_start.
     destruct (text_kind (map lower n)); try discriminate Wk. reflexivity.
+  - (* comment *)
+    cbn [render expected wf] in *. change (bs "<!--") with [x3c; x21; x2d; x2d]. change (bs "-->") with [x2d; x2d; x3e].
+    rewrite <- !app_assoc. apply (comment_tokens d rest W).
+  - (* doctype *)
+    cbn [render expected wf] in *. rewrite <- !app_assoc. change ([x3e] ++ rest) with (x3e :: rest). apply (doctype_tokens d rest W).
+  - (* raw element with static content *)
+    cbn [wf] in W. apply andb_prop in W as [W Ok]. apply andb_prop in W as [Wn Wa].
+    cbn [render expected]. rewrite (elem_name_escape n Wn). rewrite <- !app_assoc.
+    change ([x3e] ++ v ++ [x3c; x2f] ++ n ++ [x3e] ++ rest) with (x3e :: (v ++ [x3c; x2f] ++ n ++ x3e :: rest)).
+    rewrite (open_tag n a _ Wn Wa). unfold after_start.
+    assert (Hne : n <> []) by (destruct n; discriminate).
+    destruct (text_kind (map lower n)) eqn:K; try discriminate Ok.
+    + assert (Al : forallb is_alpha n = true) by (rewrite <- forallb_alpha_lower; apply text_kind_alpha; rewrite K; discriminate).
+      rewrite (raw_static_tokens XRawtext n v rest eq_refl Hne Al Ok). destruct (run Data rest). cbn [app]. rewrite <- app_assoc. reflexivity.
+    + assert (Al : forallb is_alpha n = true) by (rewrite <- forallb_alpha_lower; apply text_kind_alpha; rewrite K; discriminate).
+      rewrite (raw_static_tokens XScript n v rest eq_refl Hne Al Ok). destruct (run Data rest). cbn [app]. rewrite <- app_assoc. reflexivity.
+  - (* script element with static and dynamic parts *)
+    cbn [wf] in W. apply andb_prop in W as [Wa Wp]. cbn [render expected].
+    change (bs "<script") with ([x3c] ++ bs "script"). change (bs "</script>") with ([x3c; x2f] ++ bs "script" ++ [x3e]).
+    rewrite <- !app_assoc.
+    change ([x3e] ++ flat_map part_bytes ps ++ [x3c; x2f] ++ bs "script" ++ [x3e] ++ rest)
+      with (x3e :: (flat_map part_bytes ps ++ [x3c; x2f] ++ bs "script" ++ x3e :: rest)).
+    rewrite (open_tag (bs "script") a _ eq_refl Wa).
+    change (after_start (map lower (bs "script"))) with (Text XScript (bs "script")).
+    rewrite (script_parts_tokens ps Wp rest). destruct (run Data rest). cbn [app]. rewrite <- app_assoc. reflexivity.
+  - (* if / else *)
+    cbn [render expected wf] in *. destruct c; [apply (seq_list wf Data th H W)|apply (seq_list wf Data el H0 W)].
+  - cbn [render expected wf] in *. apply (seq_list2 wf Data its H W).
+  - cbn [render expected wf] in *. apply (seq_pick wf Data cs H i W).
+  - cbn [render expected wf] in *. apply (seq_list wf Data b H W).
+  - cbn [render expected wf] in *. apply (seq_list wf Data b H W).
 Qed.
 
 Theorem document_fragment t : wf t = true -> tok (render t) = expected t.
